@@ -96,3 +96,20 @@ Proof.
   replace (5 / 4 + 1 / 4) with (3 / 2) by field. replace (5 / 4 - 1 / 4) with 1 by field.
   reflexivity.
 Qed.
+
+(* higher derivatives of x^3 - 2 and the pass of cube2_run, for the central-difference bound *)
+Lemma cube2_der2 c : derivable_pt_lim cube2' c (6 * c).
+Proof. unfold cube2'. apply is_derive_Reals. auto_derive; [exact I|ring]. Qed.
+
+Lemma cube2_der3 c : derivable_pt_lim (fun x => 6 * x) c 6.
+Proof. apply is_derive_Reals. auto_derive; [exact I|ring]. Qed.
+
+Lemma cube2_pass :
+  scalar_step NRl 1 (1 / 4) (fun t => Ok (cube2 t)) (5 / 4) =
+    Ok (5 / 4 - cube2 (5 / 4) / cdq cube2 (5 / 4) (1 / 4),
+        R_leb (Rabs (cube2 (5 / 4) / cdq cube2 (5 / 4) (1 / 4))) 1,
+        [5 / 4 + 1 / 4; 5 / 4 - 1 / 4; 5 / 4]).
+Proof.
+  assert (Hc : cdq cube2 (5 / 4) (1 / 4) = 19 / 4) by (unfold cdq, cube2; field).
+  apply scalar_pass_R; [lra|rewrite Hc; lra].
+Qed.
